@@ -92,7 +92,7 @@ def cases(tier, seed):
             n_ops = len(alphabet_for(spec, enc))
             for first in range(n_ops):
                 yield dict(kind='hist', name=name, spec=spec, enc=enc, first=first, depth=3, reduced=False)
-            if tier != 'quick':
+            if tier != 'quick' and name != 'forced_before_cond':   # (its depth-3 alphabet is already the full one)
                 for first in range(len(alphabet_for(spec, enc, reduced=True))):
                     yield dict(kind='hist', name=name, spec=spec, enc=enc, first=first, depth=4, reduced=True)
 
